@@ -6,10 +6,11 @@ name-resolution / interface-statistics / custom / unknown blocks interspersed at
 magic (run with -l).  Timestamps are drawn from the grid representable in every container of the group (multiples of 1000 us with millisecond resolution,
 of 15625 us = 1/64 s with power-of-two resolutions), so equality is only demanded where the inputs really are equal.
 """
+import os
 import random
 import struct
 
-from vlib import e2e, engine, gen, netsynth as ns, outparse, scene
+from vlib import corpus, e2e, engine, gen, netsynth as ns, outparse, scene
 
 
 def junk_block(rng, e, allow_idb=True):
@@ -44,8 +45,8 @@ def with_junk(rng, pk, e, n):
     return out
 
 
-def containers(rng, pk, grid, thorough):
-    """-> [(label, bytes, legacy?)]"""
+def containers(rng, pk, grid, thorough, keys=b""):
+    """-> [(label, bytes, legacy?[, keys come from a DSB only?])]"""
     out = []
     for le in (True, False):
         e = "<" if le else ">"
@@ -72,6 +73,10 @@ def containers(rng, pk, grid, thorough):
         if grid % 15625 == 0:
             for k in ([6, 10, 20, 30] if thorough else [rng.choice([6, 7, 10]), rng.choice([16, 20, 30])]):
                 out.append((f"pcapng-{tag}-tsresol2^-{k}", ns.pcapng(pk, le=le, tsresol=0x80 | k), False))
+        if keys:        # the secrets travel inside the container (no -s): DSB behind or in front of the interface description, among other blocks, any resolution
+            out.append((f"pcapng-{tag}-dsb-behind-idb-junk", ns.pcapng(with_junk(rng, [("dsb", keys)] + list(pk), e, 2), le=le, tsresol=rng.choice([None, 9])), False, True))
+            out.append((f"pcapng-{tag}-dsb-before-idb", ns.pcapng(pk, le=le, tsoffset=rng.choice([None, off]),
+                                                                 pre_idb=[("raw",) + junk_block(rng, e, allow_idb=False)] * rng.randrange(0, 2) + [("dsb", keys)]), False, True))
         out.append((f"pcap-legacy-{tag}-us", ns.pcap_legacy(pk, le=le), True))
         out.append((f"pcap-legacy-{tag}-ns", ns.pcap_legacy(pk, le=le, nano=True), True))
     return out
@@ -80,6 +85,9 @@ def containers(rng, pk, grid, thorough):
 def build(tier, seed):
     thorough = tier == "thorough"
     cases = [{"id": f"scene-{i}", "i": i} for i in range(400 if thorough else 36)]
+    real = corpus.tls_captures() + corpus.quic_captures(big=thorough)
+    for name, path, _, _ in (real if thorough else real[::5]):          # the repository's real captures: same packets, every container
+        cases.append({"id": f"real-{name}", "real": name})
 
     def evalfn(case):
         return eval_case(case, random.Random(engine.subseed("C12", seed, case["id"])), thorough)
@@ -91,6 +99,11 @@ def build(tier, seed):
 
 
 def eval_case(case, rng, thorough):
+    if case.get("real"):
+        name, path, keys, extra = next(c for c in corpus.tls_captures() + corpus.quic_captures(big=False) + corpus.quic_captures(big=True) if c[0] == case["real"])
+        pk = [it for it in corpus.load(path) if it[0] == "pkt"]
+        grid = 1
+        return compare_containers(case, rng, thorough, pk, keys, extra, grid, {"cls": ["real", case["real"]], "sample": {"case": case["id"], "capture": os.path.basename(path), "packets": len(pk)}})
     n = rng.choice([1, 2, 3])
     flows = [gen.random_quic_flow(rng, i, napp=4) if rng.random() < 0.35 else gen.random_tls_flow(rng, i, nmax=5, min_records=1) for i in range(n)]
     if rng.random() < 0.4:
@@ -100,16 +113,20 @@ def eval_case(case, rng, thorough):
     scene.stamp(items, rng, rng.choice(["plain", "edge-low", "edge-high", "dense"]) if grid == 1 else "plain", grid=grid)
     keys = scene.keylog_text([f for f in flows if f.keylog], rng)
     pk = [("pkt", it.ts, it.frame) for it in items]
-    base, files, argv = e2e.run_capture(ns.pcapng(pk), keys)
     out = {"cls": [grid, n], "sample": {"case": case["id"], "flows": [getattr(f, "label", "noise") for f in flows], "grid_us": grid, "first_ts": items[0].ts, "packets": len(items)}}
+    return compare_containers(case, rng, thorough, pk, keys, [], grid, out)
+
+
+def compare_containers(case, rng, thorough, pk, keys, extra, grid, out):
+    base, files, argv = e2e.run_capture(ns.pcapng(pk), keys, extra)
     fail = e2e.run_failed(base)
     if fail:
         return dict(out, v="inconclusive" if fail.startswith("INCONCLUSIVE") else "violated", msg="baseline container: " + fail, files=files)
     ab = outparse.Analysis(base.out)
     bad, classes, units = [], set(), 0
-    for label, cap, legacy in containers(rng, pk, grid, thorough):
+    for label, cap, legacy, *dsbonly in containers(rng, pk, grid, thorough, keys):
         units += 1
-        r, f2, a2 = e2e.run_capture(cap, keys, legacy=legacy)
+        r, f2, a2 = e2e.run_capture(cap, None if dsbonly else keys, extra, legacy=legacy, no_keylog_opt=bool(dsbonly))
         kind = label
         fail = e2e.run_failed(r)
         if fail:
